@@ -18,7 +18,9 @@ def neg_cond(c):
     """not (d < 0) = (-d <= 0); not (d <= 0) = (-d < 0)"""
     rel, dk = c.tag[1], c.tag[2]
     d = cel.poly_from_key(dk)
-    return Sym("cmp", {"Lt": "Le", "Le": "Lt"}[rel], (-d).key())
+    if rel == "Lt":      # timestamps are integers: not (d < 0)  ==  -d - 1 < 0
+        return Sym("cmp", "Lt", (-d - Poly.const(1)).key())
+    return Sym("cmp", "Lt", (-d).key())
 
 
 def branches(v):
@@ -126,11 +128,11 @@ def run(ck, facts, tier):
             else:
                 b = branches(got)
                 if what == "forward":
-                    c = cel.cmp_sym("Ge", Poly.atom("x"), K(i1))          # x >= x2
+                    c = cel.cmp_sym("Ge", Poly.atom("x"), K(i1), True)    # x >= x2 (i64 timestamps)
                     want = {(cel.vkey(c), cel.vkey(Sym("ctor", variant, V(i1)))), (cel.vkey(neg_cond(c)), cel.vkey(Sym("ctor", variant, V(i0))))}
                     desc = "right node's value iff x >= x2, else left's"
                 else:
-                    c = cel.cmp_sym("Le", Poly.atom("x"), K(i0))          # x <= x1
+                    c = cel.cmp_sym("Le", Poly.atom("x"), K(i0), True)    # x <= x1
                     want = {(cel.vkey(c), cel.vkey(Sym("ctor", variant, V(i0)))), (cel.vkey(neg_cond(c)), cel.vkey(Sym("ctor", variant, V(i1))))}
                     desc = "left node's value iff x <= x1, else right's"
                 ck.check(r2, key, b == want, "flat-%s rule is not: %s" % (what, desc), where, detail="got %s" % cel.vfmt(got)[:600], sample=desc)
